@@ -239,13 +239,13 @@ type zzRegWorld struct {
 func zzRegSetup() *zzRegWorld {
 	zzClockHorizon(int64(time.Minute))
 	opts := []Opts{WithSlog(slog.New(slog.NewTextHandler(io.Discard, nil)))}
-	if zzBool("cache_on") {
+	if zzNarrow || zzBool("cache_on") {
 		opts = append(opts, WithCache(time.Hour, 100))
 	}
 	rg := New(opts...)
 	rg.reghttp = reghttp.ZZNewClient()
 	srv := &zzRegistry{client: rg.reghttp, body: map[string][]byte{}, mt: map[string]string{}, tags: map[string]string{}}
-	if zzBool("has_referrers_api") {
+	if !zzNarrow && zzBool("has_referrers_api") {
 		srv.hasAPI = true
 		srv.filters = zzBool("server_side_filter")
 		srv.page = zzInt("page_size", 0, 2)
@@ -254,7 +254,7 @@ func zzRegSetup() *zzRegWorld {
 	w := &zzRegWorld{rg: rg, srv: srv}
 	w.r, _ = ref.New("reg.example/repo")
 	w.subj = descriptor.Descriptor{MediaType: mediatype.OCI1Manifest, Digest: digest.FromBytes([]byte("subject")), Size: 7}
-	if zzBool("subject_named_with_tag") {
+	if !zzNarrow && zzBool("subject_named_with_tag") {
 		w.rSubj, _ = ref.New("reg.example/repo:v1@" + w.subj.Digest.String())
 	} else {
 		w.rSubj = w.r.SetDigest(w.subj.Digest.String())
@@ -381,7 +381,25 @@ func ZZC10_reg_history() {
 // pre-state, 2 (3 thorough) tasks each push or delete their own artifact; the
 // tasks interleave at request granularity in every possible way (zzTurn).
 // When all have finished the referrers are exactly pre-state +/- the updates.
-func ZZC10_reg_concurrent() { zzRegConcurrent(2+zzTier(), false) }
+func ZZC10_reg_concurrent() {
+	zzRegConcurrent(2, false)
+	// (three tasks multiply the interleavings beyond the path budget for the full configuration
+	// space; the thorough tier runs them in ZZC10_reg_concurrent3 on the fallback-tag registry only)
+}
+
+// Three concurrent updates on a registry without the referrers API (the
+// client-maintained fallback tag), response cache on. Thorough tier only.
+func ZZC10_reg_concurrent3() {
+	if zzTier() == 0 {
+		zzReach("tasks_finished")
+		return
+	}
+	zzNarrow = true
+	zzRegConcurrent(3, false)
+	zzNarrow = false
+}
+
+var zzNarrow bool
 
 // The same with one updating task and a ReferrerList running beside it: once
 // both have finished, a further listing still reports exactly the live set
@@ -397,7 +415,7 @@ func zzRegConcurrent(nTasks int, lister bool) {
 			w.live[i] = true
 		}
 	}
-	if zzBool("list_before") {
+	if !zzNarrow && zzBool("list_before") {
 		// the cache may hold the pre-state
 		w.check(ctx)
 	}
